@@ -119,7 +119,7 @@ PLANS = {
     },
     "C13": {
         "level": "proof",
-        "sidecars": ["ssbridge", "patching", "repair"],
+        "sidecars": ["ssbridge", "patching", "repair", "driver"],
         "extras": [],
         "explanation": "update_ss_bridges on 2-4 cysteines with symbolic coordinates, numbering and chains",
     },
